@@ -13,7 +13,7 @@ C18_FORMATS = [('h5', 3), ('xtc', 4), ('trr', 4), ('dcd', 3), ('nc', 3), ('mdcrd
                ('lammpstrj', 2), ('dtr', 2)]
 C02_FORMATS = [('h5', 4), ('xtc', 4), ('trr', 3), ('dcd', 3), ('nc', 3), ('mdcrd', 2), ('xyz', 2),
                ('lammpstrj', 2), ('gro', 1), ('pdb', 1), ('dtr', 1)]
-ATOMS = [1, 2, 3, 8, 9, 10, 11, 20, 22, 30, 50]
+ATOMS = [1, 2, 3, 8, 9, 10, 11, 20, 22, 30, 50, 50, 130, 257]      # incl. sizes beyond one text line / one compression block
 XTOL = 5e-4
 
 
@@ -94,7 +94,7 @@ def resolve_subset(sub, n_atoms):
 
 def _gen_handle_op(rng, n_handles, nsub):
     c = rng.below(n_handles)
-    op = rng.weighted([('read', 30), ('readall', 10), ('seek', 16), ('rseek', 16), ('tell', 12), ('len', 8),
+    op = rng.weighted([('read', 30), ('readall', 10), ('seek', 16), ('rseek', 16), ('eseek', 4), ('tell', 12), ('len', 8),
                        ('reopen', 3), ('gc', 1)])
     o = {'op': op, 'c': c}
     if op == 'read':
@@ -104,7 +104,7 @@ def _gen_handle_op(rng, n_handles, nsub):
     elif op == 'readall':
         if rng.chance(0.3):
             o['ai'] = rng.below(nsub)
-    elif op in ('seek', 'rseek'):
+    elif op in ('seek', 'rseek', 'eseek'):
         o['k'] = rng.below(1 << 16)
     return o
 
@@ -478,11 +478,13 @@ def step_handle(res, check, world, hc, op, stepno, judge=True):
             res.trace.append((fmt, kind, pc, 'over' if over else 'in', hc.lenwarm, ai is not None))
             if bad is not None:
                 viol(bad[0], bad[1], ',over' if over else '')
-        elif kind in ('seek', 'rseek'):
+        elif kind in ('seek', 'rseek', 'eseek'):
             target = op['k'] % N
             try:
                 if kind == 'seek':
                     hc.h.seek(target)
+                elif kind == 'eseek':
+                    hc.h.seek(target - N, 2)       # documented third mode: relative to the end, offset <= 0 (offered by few formats)
                 else:
                     hc.h.seek(target - pre, 1)
             except NotImplementedError:
@@ -493,7 +495,7 @@ def step_handle(res, check, world, hc, op, stepno, judge=True):
             hc.lenwarm = True
             if hc.eof:
                 res.probe('seek_after_eof')
-            if kind == 'seek':
+            if kind in ('seek', 'eseek'):
                 hc.eof = False      # flag = "a read reached the end since the last absolute seek or (re)open"
             res.log.append('%d c%d %s %d -> %d' % (stepno, op['c'], kind, pre, target))
             res.trace.append((fmt, kind, pc, _posclass(target, N), hc.eof))
